@@ -118,6 +118,7 @@ impl<TX> ArcOutputGuard<'_, TX> {
     pub(super) fn revise_max_stream_data(
         &self,
         zero_rtt_rejected: bool,
+        local_role: qbase::role::Role,
         opened_bidi: u64,
         opened_uni: u64,
         bidi_snd_wnd_size: u64,
@@ -126,8 +127,9 @@ impl<TX> ArcOutputGuard<'_, TX> {
         self.deref()
             .iter()
             .filter(|(sid, _)| {
-                sid.dir() == Dir::Bi && sid.id() < opened_bidi
-                    || sid.dir() == Dir::Uni && sid.id() < opened_uni
+                sid.role() == local_role
+                    && (sid.dir() == Dir::Bi && sid.id() < opened_bidi
+                        || sid.dir() == Dir::Uni && sid.id() < opened_uni)
             })
             .for_each(|(sid, (outgoing, _))| match sid.dir() {
                 Dir::Bi => outgoing.revise_max_stream_data(zero_rtt_rejected, bidi_snd_wnd_size),
